@@ -9,7 +9,7 @@ from props.rot_common import *
 
 PID = 'C15'
 MANIFEST = dict(
-    text='Machine-checked proof (Coq) over the executable RotatingSink model: for every start instant and every non-decreasing timestamp sequence, two statements with a rotation point of the schedule between them never share a file, statements with no point between them and no size rotation due share the live file, a rotated file carries strftime of the instant it was opened with the index counting newer files of the same suffix, and the C14 invariants (whole statements, order, count) hold with time rotation composed with size rotation and the backup limit. The schedule is P0 + j*period for hourly/minutely; for daily rotation the premise is that the libc-derived next point is the first HH:MM instant after t (grid property). sched_drift_refuted replays the pre-fix behaviour (next = record timestamp + period, D7). Tied to the real RotatingFileSink by differential runs in GMT and five local zones including DST days.',
+    text='Machine-checked proof (Coq, all theorems closed under the global context) over the executable RotatingSink model: for every start instant and every non-decreasing timestamp sequence of one run (overwrite on, directory without files named stem.*.ext, live file initially empty) no file holds two statements with a rotation point of the schedule between them (C15_separates); a statement stays in the live file with everything written after it while no point passes and no size rotation fires (C15_shares); a rotated file carries strftime of the instant it was opened, equal suffixes get strictly increasing indices and names stay pairwise distinct (C15_name, C15_name_index_bump); the C14 theorems hold with time rotation enabled (C15_compose). The schedule premises are theorems for hourly/minutely rotation (points P0 + j*period; libc premise: the adjusted broken-down time lies in the future) and follow from the stated grid property of the libc-derived next-point function for daily rotation; that property is refuted for the real libc on DST-change days (daily_dst_grid_refuted, open finding C15-daily-dst). sched_drift_refuted replays the pre-fix behaviour (D7, fixed). Tied to the real RotatingFileSink by differential runs in GMT and five local zones including DST days (0 disagreements), monitor schedule computed independently with zoneinfo.',
     design='5 C15', technique='Coq invariant proof over an executable model + extracted-model/implementation differential correspondence in a scratch directory')
 TRUSTED = [
     'Coq 8.16.1 kernel (coqc, vm_compute for refutation / non-vacuity examples; no native_compute)',
